@@ -15,6 +15,7 @@ CONSTANTS
   MaxTime = 0
   MaxOps = 1000000
   Lax = 2
+  MuteSw = {"s_no", "s_nc"}
   LongAgo <- TLongAgo
 INVARIANT Reporter
 CHECK_DEADLOCK FALSE
